@@ -39,12 +39,19 @@ def main():
     lines = ["# Seeded changes: last complete evaluation", "",
              f"/repo HEAD {head}; each seed applied in a scratch worktree; quick tier of the seed's own property.", "",
              "| seed | title | check result | obligations reporting the violation |", "|---|---|---|---|"]
+    rows = {}
+    if args and os.path.exists(f"{V}/seeded/RESULTS.md"):   # partial re-evaluation: keep the other rows
+        for ln in open(f"{V}/seeded/RESULTS.md"):
+            m = re.match(r"\| (C\d\d_m\d+) \|", ln)
+            if m:
+                rows[m.group(1)] = ln.rstrip("\n")
     for seed, rc, hits, wall in res:
         title = json.load(open(f"{V}/seeded/{seed}/meta.json")).get("title", "")[:110].replace("|", "/")
-        lines.append(f"| {seed} | {title} | {rc} ({wall:.0f} s) | {', '.join(hits) or '-'} |")
-        print(lines[-1], flush=True)
-    caught = sum(1 for _, rc, hits, _ in res if rc == "exit=1" and hits)
-    lines += ["", f"{caught} of {len(res)} seeded changes reported as VIOLATION (exit 1) by the check of their property."]
+        rows[seed] = f"| {seed} | {title} | {rc} ({wall:.0f} s) | {', '.join(hits) or '-'} |"
+        print(rows[seed], flush=True)
+    lines += [rows[k] for k in sorted(rows)]
+    caught = sum(1 for r in rows.values() if "| exit=1 (" in r and not r.rstrip().endswith("| - |"))
+    lines += ["", f"{caught} of {len(rows)} seeded changes reported as VIOLATION (exit 1) by the check of their property."]
     open(f"{V}/seeded/RESULTS.md", "w").write("\n".join(lines) + "\n")
     print(lines[-1])
 
